@@ -296,7 +296,7 @@ Proof.
   intros Hc Hs. rewrite pawn_moves_split. intros H. apply in_app_or in H as [H|H].
   - apply (pawn_pushes_in p s m Hc Hs) in H as (A & _ & B & C & D). repeat split; try assumption; lia.
   - apply in_flat_map in H as [t [Ht H]]. apply pawn_capture_at_in in H as (A1 & A2 & A3 & A4).
-    apply pawn_targets_lt in Ht. rewrite A2. repeat split; assumption.
+    apply pawn_targets_lt in Ht. rewrite A2. repeat split; try assumption; lia.
 Qed.
 
 (** ** castling *)
@@ -369,8 +369,8 @@ Proof.
   intros Hw H. apply in_pseudo in H as [[s [Hs H]]|H]; [|now apply ps_castle].
   destruct (piece_moves_owner p s m Hw H) as [ty [Hty E]].
   rewrite (piece_moves_own p s ty Hty E) in H.
-  destruct (N.eqb_spec ty PAWN) as [->|Hp].
-  - now apply (ps_pawn p s).
+  destruct (N.eqb_spec ty PAWN) as [Ep|Hp].
+  - rewrite Ep in E. now apply (ps_pawn p s).
   - unfold simple_moves in H. apply in_map_iff in H as [t [<- Ht]]. apply filter_In in Ht as [Ht1 Ht2].
     apply (ps_simple p s t ty); try assumption. unfold PAWN, KING in *. lia.
 Qed.
@@ -442,34 +442,40 @@ Proof.
 Qed.
 
 (** ** the classes of moves, in the engine's generation order
-    0 pawn captures (with promotion captures)   1 en passant
-    2 queen/knight push promotions when UsePromNonQuiet
-    3 king captures   4 officer captures
-    5 the other push promotions   6 pawn double steps   7 pawn single steps
-    8 castling   9 king non captures   10 officer non captures *)
+    0 pawn promotion captures towards the a-file   1 other pawn captures towards the a-file
+    2 pawn promotion captures towards the h-file   3 other pawn captures towards the h-file
+    4 en passant from the west neighbour (first iteration of the engine's loop)   5 from the east
+    6 queen/knight push promotions when UsePromNonQuiet
+    7 king captures   8 officer captures
+    9 the other push promotions   10 pawn double steps   11 pawn single steps
+    12 castling   13 king non captures   14 officer non captures *)
 Definition mover (p : pos) (m : mv) : N := type_of (piece_at p (mfrom m)).
 
 Definition cls (prom_nq : bool) (p : pos) (m : mv) : N :=
-  if mtype m =? CASTLING then 8 else if mtype m =? ENPASSANT then 1 else
+  if mtype m =? CASTLING then 12 else
+  if mtype m =? ENPASSANT then (if file_of (mfrom m) <? file_of (mto m) then 4 else 5) else
   if mover p m =? PAWN then
     if file_of (mfrom m) =? file_of (mto m) then
       if mtype m =? PROMOTION then
-        (if prom_nq && ((mprom m =? QUEEN) || (mprom m =? KNIGHT)) then 2 else 5)
-      else if zabs_diff (rank_of (mfrom m)) (rank_of (mto m)) =? 2 then 6 else 7
-    else 0
-  else if mover p m =? KING then (if piece_at p (mto m) =? 0 then 9 else 3)
-  else (if piece_at p (mto m) =? 0 then 10 else 4).
+        (if prom_nq && ((mprom m =? QUEEN) || (mprom m =? KNIGHT)) then 6 else 9)
+      else if zabs_diff (rank_of (mfrom m)) (rank_of (mto m)) =? 2 then 10 else 11
+    else if file_of (mto m) <? file_of (mfrom m) then (if mtype m =? PROMOTION then 0 else 1)
+    else (if mtype m =? PROMOTION then 2 else 3)
+  else if mover p m =? KING then (if piece_at p (mto m) =? 0 then 13 else 7)
+  else (if piece_at p (mto m) =? 0 then 14 else 8).
 
-Lemma cls_lt prom_nq p m : cls prom_nq p m < 11.
+Definition NCLS : nat := 15.
+
+Lemma cls_lt prom_nq p m : cls prom_nq p m < 15.
 Proof. unfold cls. repeat match goal with |- context [if ?c then _ else _] => destruct c end; lia. Qed.
 
 Definition class_codes (prom_nq : bool) (p : pos) (k : nat) : list N :=
   map code (filter (fun m => cls prom_nq p m =? N.of_nat k) (pseudo p)).
 
 Theorem pseudo_classes_perm prom_nq p :
-  Permutation (map code (pseudo p)) (concat (map (class_codes prom_nq p) (seq 0 11))).
+  Permutation (map code (pseudo p)) (concat (map (class_codes prom_nq p) (seq 0 NCLS))).
 Proof.
-  unfold class_codes. rewrite <- (classes_map_concat (cls prom_nq p) code 11 (pseudo p)).
+  unfold class_codes. unfold NCLS. rewrite <- (classes_map_concat (cls prom_nq p) code 15 (pseudo p)).
   apply Permutation_map. apply classes_perm. intros m _. apply cls_lt.
 Qed.
 
@@ -484,6 +490,167 @@ Proof.
   - now apply N.eqb_eq.
 Qed.
 
-(* non-quiet = classes 0..4, as a predicate on specification moves
+(* non-quiet = classes 0..8, as a predicate on specification moves
    (captures, en passant, and the queen/knight push promotions with UsePromNonQuiet) *)
-Definition nonquiet_spec (prom_nq : bool) (p : pos) (m : mv) : bool := cls prom_nq p m <? 5.
+Definition nonquiet_spec (prom_nq : bool) (p : pos) (m : mv) : bool := cls prom_nq p m <? 9.
+
+(** ** the class of a move of each shape *)
+Lemma cls_simple prom_nq p s t ty : 3 <= ty <= 6 \/ ty = KING -> at_ (brd p) s = mk_piece (stm p) ty ->
+  cls prom_nq p (mkmv s t NORMAL 3) =
+  if ty =? KING then (if at_ (brd p) t =? 0 then 13 else 7) else (if at_ (brd p) t =? 0 then 14 else 8).
+Proof.
+  intros Hty E. unfold cls, mover, piece_at. cbn [mtype mfrom mto]. rewrite E.
+  rewrite mk_piece_type by (unfold KING in *; lia).
+  replace (NORMAL =? CASTLING) with false by reflexivity. replace (NORMAL =? ENPASSANT) with false by reflexivity.
+  replace (ty =? PAWN) with false by (unfold PAWN, KING in *; lia). reflexivity.
+Qed.
+
+Lemma cls_castle prom_nq p m : In m (castle_moves p) -> cls prom_nq p m = 12.
+Proof. intros H. apply castle_moves_valid in H as [_ H]. unfold cls. now rewrite H. Qed.
+
+Lemma mover_pawn p s m : stm p < 2 -> s < 64 -> at_ (brd p) s = mk_piece (stm p) PAWN -> In m (pawn_moves p s) ->
+  mover p m = PAWN /\ mtype m <> CASTLING.
+Proof.
+  intros Hc Hs E Hm. destruct (pawn_moves_in p s m Hc Hs Hm) as (A & _ & C & _).
+  unfold mover, piece_at. rewrite A, E. split; [apply mk_piece_type; unfold PAWN; lia|unfold CASTLING; lia].
+Qed.
+
+Lemma cls_pawn prom_nq p s m : stm p < 2 -> s < 64 -> at_ (brd p) s = mk_piece (stm p) PAWN -> In m (pawn_moves p s) ->
+  cls prom_nq p m <> 7 /\ cls prom_nq p m <> 8 /\ cls prom_nq p m <> 12 /\ cls prom_nq p m <> 13 /\ cls prom_nq p m <> 14.
+Proof.
+  intros Hc Hs E Hm. destruct (mover_pawn p s m Hc Hs E Hm) as [Hmv Hty].
+  unfold cls. rewrite Hmv. apply N.eqb_neq in Hty. rewrite Hty. rewrite N.eqb_refl.
+  repeat match goal with |- context [if ?c then _ else _] => destruct c end; repeat split; discriminate.
+Qed.
+
+(** ** pawn moves, one constructor per kind, with the class of each *)
+Definition prom_piece (pr : N) : Prop := pr = QUEEN \/ pr = ROOK \/ pr = BISHOP \/ pr = KNIGHT.
+Definition is_qn (pr : N) : bool := (pr =? QUEEN) || (pr =? KNIGHT).
+
+Lemma adv_iff c s t m : In m (adv c s t) <->
+  (rank_of t = last_rank c /\ exists pr, prom_piece pr /\ m = mkmv s t PROMOTION pr) \/
+  (rank_of t <> last_rank c /\ m = mkmv s t NORMAL 3).
+Proof.
+  unfold adv, promos, prom_piece. destruct (N.eqb_spec (rank_of t) (last_rank c)) as [E|E]; cbn [In]; split.
+  - intros [<-|[<-|[<-|[<-|[]]]]]; left; (split; [exact E|]); eexists; (split; [|reflexivity]); auto.
+  - intros [[_ [pr [[->|[->|[->| ->]]] ->]]]|[H _]]; try congruence; auto.
+  - intros [<-|[]]. right. auto.
+  - intros [[H _]|[_ ->]]; [congruence|now left].
+Qed.
+
+Section PawnKinds.
+Variable prom_nq : bool.
+Variable p : pos.
+Let b := brd p.
+Let c := stm p.
+
+Definition promo_cls (pr : N) : N := if prom_nq && is_qn pr then 6 else 9.
+
+Inductive pmove (s : N) : mv -> N -> Prop :=
+| pm_single t : step (fwd c) s = Some t -> at_ b t = 0 -> rank_of t <> last_rank c ->
+    pmove s (mkmv s t NORMAL 3) 11
+| pm_promo t pr : step (fwd c) s = Some t -> at_ b t = 0 -> rank_of t = last_rank c -> prom_piece pr ->
+    pmove s (mkmv s t PROMOTION pr) (promo_cls pr)
+| pm_double t u : step (fwd c) s = Some t -> at_ b t = 0 -> rank_of s = start_rank c ->
+    step (fwd c) t = Some u -> at_ b u = 0 -> pmove s (mkmv s u NORMAL 3) 10
+| pm_cap t : In t (pawn_attack_targets c s) -> enemy b c t = true -> rank_of t <> last_rank c ->
+    pmove s (mkmv s t NORMAL 3) (if file_of t <? file_of s then 1 else 3)
+| pm_cappromo t pr : In t (pawn_attack_targets c s) -> enemy b c t = true -> rank_of t = last_rank c ->
+    prom_piece pr -> pmove s (mkmv s t PROMOTION pr) (if file_of t <? file_of s then 0 else 2)
+| pm_ep t : In t (pawn_attack_targets c s) -> enemy b c t = false -> t = ep p -> at_ b t = 0 ->
+    pmove s (mkmv s t ENPASSANT 3) (if file_of s <? file_of t then 4 else 5).
+
+Lemma pawn_moves_pmove s m : In m (pawn_moves p s) <-> exists k, pmove s m k.
+Proof.
+  rewrite pawn_moves_split, in_app_iff, in_flat_map. unfold pawn_pushes, pawn_capture_at. fold b c. split.
+  - intros [H|[t [Ht H]]].
+    + destruct (step (fwd c) s) as [t|] eqn:E; [|destruct H].
+      destruct (N.eqb_spec (at_ b t) 0) as [E0|E0]; [|destruct H].
+      apply in_app_or in H as [H|H].
+      * apply adv_iff in H as [[Hr [pr [Hpr ->]]]|[Hr ->]]; eexists; [now apply (pm_promo s t)|now apply (pm_single s t)].
+      * destruct (N.eqb_spec (rank_of s) (start_rank c)) as [Es|Es]; [|destruct H].
+        destruct (step (fwd c) t) as [u|] eqn:E2; [|destruct H].
+        destruct (N.eqb_spec (at_ b u) 0) as [Eu|Eu]; [|destruct H]. destruct H as [<-|[]].
+        eexists. now apply (pm_double s t u).
+    + destruct (enemy b c t) eqn:Een.
+      * apply adv_iff in H as [[Hr [pr [Hpr ->]]]|[Hr ->]]; eexists; [now apply (pm_cappromo s t)|now apply (pm_cap s t)].
+      * destruct (N.eqb_spec t (ep p)) as [Ee|Ee]; cbn [andb] in H; [|destruct H].
+        destruct (N.eqb_spec (at_ b t) 0) as [E0|E0]; [|destruct H]. destruct H as [<-|[]].
+        eexists. now apply (pm_ep s t).
+  - intros [k H]. destruct H as [t E E0 Hr|t pr E E0 Hr Hpr|t u E E0 Es E2 Eu|t Ht Een Hr|t pr Ht Een Hr Hpr|t Ht Een Ee E0].
+    + left. rewrite E, E0. cbn [N.eqb]. apply in_or_app. left. apply adv_iff. right. auto.
+    + left. rewrite E, E0. cbn [N.eqb]. apply in_or_app. left. apply adv_iff. left. split; [exact Hr|]. now exists pr.
+    + left. rewrite E, E0. cbn [N.eqb]. apply in_or_app. right. rewrite Es, N.eqb_refl, E2, Eu. now left.
+    + right. exists t. split; [exact Ht|]. rewrite Een. apply adv_iff. right. auto.
+    + right. exists t. split; [exact Ht|]. rewrite Een. apply adv_iff. left. split; [exact Hr|]. now exists pr.
+    + right. exists t. split; [exact Ht|]. rewrite Een, <- Ee, N.eqb_refl, E0. now left.
+Qed.
+
+Lemma pmove_cls s m k : c < 2 -> s < 64 -> at_ b s = mk_piece c PAWN -> pmove s m k -> cls prom_nq p m = k.
+Proof.
+  intros Hc Hs Hat H.
+  assert (Hmv : forall t ty pr, mover p (mkmv s t ty pr) = PAWN).
+  { intros. unfold mover, piece_at. cbn [mfrom]. fold b. rewrite Hat. apply mk_piece_type. unfold PAWN. lia. }
+  destruct H as [t E E0 Hr|t pr E E0 Hr Hpr|t u E E0 Es E2 Eu|t Ht Een Hr|t pr Ht Een Hr Hpr|t Ht Een Ee E0];
+    unfold cls; rewrite Hmv; cbn [mtype mfrom mto mprom]; rewrite N.eqb_refl.
+  - destruct (push_geom c s t Hc Hs E) as (G1 & G2 & G3). rewrite G1, N.eqb_refl, G3. reflexivity.
+  - destruct (push_geom c s t Hc Hs E) as (G1 & G2 & G3). rewrite G1, N.eqb_refl. reflexivity.
+  - destruct (double_geom c s t u Hc Hs E E2) as (G1 & G2 & G3). rewrite G1, N.eqb_refl, G3. reflexivity.
+  - pose proof (capture_geom c s t Hc Hs Ht) as G. replace (file_of s =? file_of t) with false by lia. reflexivity.
+  - pose proof (capture_geom c s t Hc Hs Ht) as G. replace (file_of s =? file_of t) with false by lia. reflexivity.
+  - reflexivity.
+Qed.
+
+(* the pawn classes of [pseudo p] *)
+Lemma pawn_class_in k x : wfp p -> k <> 7%nat -> k <> 8%nat -> k <> 12%nat -> k <> 13%nat -> k <> 14%nat ->
+  (In x (class_codes prom_nq p k) <->
+   exists s m, s < 64 /\ at_ b s = mk_piece c PAWN /\ pmove s m (N.of_nat k) /\ code m = x).
+Proof.
+  intros Hw K7 K8 K12 K13 K14. rewrite class_codes_in. split.
+  - intros (m & Hm & Hcls & <-). apply (pseudo_shape p m Hw) in Hm.
+    destruct Hm as [s t ty Hs Hty E Ht Hf|s m Hs E Hm|m Hm].
+    + rewrite (cls_simple prom_nq p s t ty Hty E) in Hcls.
+      destruct (ty =? KING), (at_ (brd p) t =? 0); lia.
+    + exists s, m. apply pawn_moves_pmove in Hm as [k' Hk'].
+      pose proof (pmove_cls s m k' (wf_stm p Hw) Hs E Hk') as Hc'. rewrite Hcls in Hc'. subst k'. auto.
+    + rewrite (cls_castle prom_nq p m Hm) in Hcls. lia.
+  - intros (s & m & Hs & E & Hk & <-). exists m. split; [|split; [|reflexivity]].
+    + apply pseudo_of_shape. apply (ps_pawn p s m Hs E). apply pawn_moves_pmove. now exists (N.of_nat k).
+    + now apply (pmove_cls s m _ (wf_stm p Hw) Hs E).
+Qed.
+
+End PawnKinds.
+
+(** ** lists made of whole classes *)
+Definition class_lists (prom_nq : bool) (p : pos) (ks : list nat) (l : list N) : Prop :=
+  exists Ls, l = concat Ls /\
+             Forall2 (fun k L => Permutation L (class_codes prom_nq p k) /\ NoDup L) ks Ls.
+
+Lemma class_lists_one prom_nq p k l : Permutation l (class_codes prom_nq p k) -> NoDup l ->
+  class_lists prom_nq p [k] l.
+Proof. intros H1 H2. exists [l]. cbn [concat]. rewrite app_nil_r. split; [reflexivity|]. repeat constructor; assumption. Qed.
+
+Lemma class_lists_nil prom_nq p : class_lists prom_nq p [] [].
+Proof. exists []. split; [reflexivity|constructor]. Qed.
+
+Lemma class_lists_app prom_nq p ks1 ks2 l1 l2 :
+  class_lists prom_nq p ks1 l1 -> class_lists prom_nq p ks2 l2 -> class_lists prom_nq p (ks1 ++ ks2) (l1 ++ l2).
+Proof.
+  intros [L1 [-> H1]] [L2 [-> H2]]. exists (L1 ++ L2). split; [now rewrite concat_app|].
+  induction H1; cbn [app]; [exact H2|now constructor].
+Qed.
+
+Lemma class_lists_perm prom_nq p ks l : class_lists prom_nq p ks l ->
+  Permutation l (concat (map (class_codes prom_nq p) ks)).
+Proof.
+  intros [Ls [-> H]]. induction H as [|k L ks Ls [HL _] _ IH]; cbn [map concat]; [reflexivity|].
+  now apply Permutation_app.
+Qed.
+
+Theorem class_lists_all prom_nq p l : wfp p -> class_lists prom_nq p (seq 0 NCLS) l ->
+  Permutation l (map code (pseudo p)) /\ NoDup l.
+Proof.
+  intros Hw H. apply class_lists_perm in H.
+  assert (P : Permutation l (map code (pseudo p))) by (rewrite H; symmetry; apply pseudo_classes_perm).
+  split; [exact P|]. apply (Permutation_NoDup (l := map code (pseudo p))); [now symmetry|now apply pseudo_codes_nodup].
+Qed.
